@@ -67,13 +67,17 @@ func (c *Ctx) c02Opt() error {
 			}
 		}
 		for _, passes := range []int{1, 2, 3} {
-			out, err := vm.VerifOptimize(ins, passes)
-			if err != nil {
-				return err
-			}
 			var in, o []string
 			for _, x := range ins {
 				in = append(in, encInstr(x))
+			}
+			out, err, pmsg := safeOptimize(vm, ins, passes)
+			if pmsg != "" { // the model's doOpt is total on every list; a rule reading past the end of its window is a violation with this list as the replay
+				c.Rep.Violate(Violation{Kind: "crash", Cut: "opt", Input: strings.TrimRight(fmt.Sprintf("opt %d %s", passes, strings.Join(in, " ")), " "), Impl: "doOptimize panicked: " + pmsg, Oracle: "doOptimize returns an instruction list for every input list"})
+				break
+			}
+			if err != nil {
+				return err
 			}
 			for _, x := range out {
 				o = append(o, encInstr(x))
@@ -86,7 +90,7 @@ func (c *Ctx) c02Opt() error {
 			}
 			if passes == 3 {
 				// a third pass must change nothing (opt_stable on the implementation)
-				o2, _ := vm.VerifOptimize(ins, 2)
+				o2, _, _ := safeOptimize(vm, ins, 2)
 				c.Rep.Oracle["third-pass-identity"]++
 				if len(o2) != len(out) {
 					c.Rep.Violate(Violation{Kind: "oracle", Cut: "third-pass-identity", Input: lines[len(lines)-1], Impl: strings.Join(o, " "), Oracle: "equal to two passes"})
@@ -258,7 +262,10 @@ func (c *Ctx) c02Rules() error {
 				}
 				prog := ins
 				if fused {
-					o, err := vm.VerifOptimize(ins, 1)
+					o, err, pmsg := safeOptimize(vm, ins, 1)
+					if pmsg != "" {
+						return "PANIC " + pmsg
+					}
 					if err != nil || len(o) != 1 || o[0].Code != rl.rhs {
 						return fmt.Sprintf("NOT-FUSED %v", o)
 					}
@@ -416,4 +423,16 @@ func runC02(c *Ctx) error {
 		return err
 	}
 	return c.c02OnOff()
+}
+
+// safeOptimize runs the real peephole pass under recover (the verif hook calls doOptimize directly, outside
+// compiler.run's handler)
+func safeOptimize(vm *goat.VM, ins []goat.VerifInstr, passes int) (out []goat.VerifInstr, err error, pmsg string) {
+	defer func() {
+		if r := recover(); r != nil {
+			pmsg = fmt.Sprint(r)
+		}
+	}()
+	out, err = vm.VerifOptimize(ins, passes)
+	return
 }
